@@ -1059,6 +1059,25 @@ func (a *Adversary) crossInstance(h uint64) bool {
 				break
 			}
 		}
+		if a.r.Intn(2) == 0 {
+			// the other instance had this block prepared in an earlier view: its NEW_VIEW re-proposes it under a lock (no validation on that path)
+			if a.r.Intn(2) == 0 {
+				E = a.newBlock(h, true)
+				hash = spi.HashOf(E)
+			}
+			votes[0] = &ref.Vote{Type: ref.VC, Inst: oi, H: h, V: v, Proof: a.otherInstanceProof(h, v-1, E)}
+			votes[0].Sender = ref.Sig{Id: votes[0].Sender.Id, Sig: nil}
+			id0 := string(c.Members[0].Id)
+			votes[0].Sender = ref.Sig{Id: id0, Sig: a.signOther(id0, h, votes[0].HeaderBytes())}
+			// ... and its members' COMMITs for it are on the wire as well
+			for _, m := range c.Members {
+				hdr := &ref.Ref{Type: ref.C, Inst: oi, H: h, V: v, Hash: hash}
+				cm := ref.RawBlockRefMsg(ref.EnvC, hdr, ref.Sig{Id: string(m.Id), Sig: a.signOther(string(m.Id), h, hdr.Bytes())}, a.w.Keys.Share(string(m.Id), h, a.w.SeedBytes(h)), nil)
+				for _, n := range targets {
+					a.send(string(m.Id), n.Id, cm)
+				}
+			}
+		}
 		emb := &ref.Ref{Type: ref.PP, Inst: oi, H: h, V: v, Hash: hash}
 		embSig := &ref.Sig{Id: leader, Sig: a.signOther(leader, h, emb.Bytes())}
 		sg := ref.Sig{Id: leader, Sig: a.signOther(leader, h, ref.NVHeaderBytes(ref.NV, oi, h, v, votes))}
